@@ -392,7 +392,7 @@ def build():
                               + ((" " + THIRD_PASS[pid][0]) if pid in THIRD_PASS else "")
                               + ((" " + FOURTH_PASS[pid][0]) if pid in FOURTH_PASS else "")
                               + ((" " + FIFTH_PASS[pid][0]) if pid in FIFTH_PASS else ""),
-                              "design_ref": c["design"] + (", 9.5" if "9.5" not in c["design"] else "") + ", 9.8, 9.9, 9.10"},
+                              "design_ref": c["design"] + (", 9.5" if "9.5" not in c["design"] else "") + ", 9.8, 9.9, 9.10, 9.11"},
             "level_note": c["note"],
             "technique": c["technique"] + (("; " + SECOND_PASS[pid][1]) if SECOND_PASS.get(pid, ("", ""))[1] else "")
             + (("; " + THIRD_PASS[pid][1]) if pid in THIRD_PASS else "")
@@ -552,34 +552,40 @@ THIRD_PASS = {
 
 # clauses added in the fourth pass (DESIGN 9.9)
 FIFTH_PASS = {
-    "C02": ("Fifth pass: the conjugated system operators of the operator-form routines are Hermitian conjugates in a complex "
-            "element type; at() of the density-matrix evolutions indexes the nearest grid point; the scalar product of state "
-            "vectors and the inverse of a Hamiltonian's eigenvector matrix conjugate.",
-            "TA adjoint obligation, hand-out rules, idiom tables for conjugation"),
-    "C03": ("Fifth pass: 'done already' switches and flag-guarded fills (diagonalized mark, coupling matrix) are cleared or kept in "
-            "step by every method that rebuilds what they depend on.", "stored-result analysis: switch and helper forms"),
-    "C04": ("Fifth pass: managed properties are not shadowed in subclasses; at() of evolutions hands out owned data; in-place "
-            "transform() methods promote their storage first; __exit__ contains a failing transform; public deep copies are "
-            "registered; readers of the site-basis system-bath operators establish the basis (six open findings).",
-            "MRO scan, dominance of a promotion statement, contained-failure protocol rule, reader scan of sbi.KK"),
-    "C05": ("Fifth pass: nothing read through a units-managed property goes into its raw storage, no element is assigned "
-            "through such a property, and no units-managed object is created under the current units from internal values.",
-            "RAW/INT taint into raw storage and into constructors (dominance-aware linear order)"),
-    "C07": ("Fifth pass: where the operator form conjugates a system operator it takes the Hermitian conjugate.", "idiom table for the adjoint"),
-    "C08": ("Fifth pass: what the step-by-step mode keeps between calls is basis-managed; both modes record the rotating frame "
-            "and accept the same optional generators; apply() handles 'all' and refuses lists that are no time axis.",
-            "managed/plain operand scan, sibling agreement of entry points, parameter-kind rules"),
-    "C09": ("Fifth pass: the three bath-function classes agree on their energy parameters and on the units of shared "
-            "accessors; interpolation splines are dropped whenever the data change; the temperature refusal is demanded of "
-            "spectral densities too (two open findings).", "sibling tables and accessors, stored-result analysis with hooks"),
-    "C11": ("Fifth pass: exciton widths take the site coefficients of their own exciton.", "index-role rule of C12-I"),
-    "C12": ("Fifth pass: exciton widths weight site widths with SS[site, exciton].", "index-role rule on accumulations over sites"),
-    "C17": ("Fifth pass: a rate matrix owns a fresh floating-point array.", "allocation/ownership rule on the constructor"),
-    "C19": ("Fifth pass: every store into the 2D storage is behind a reachable shape refusal; resolution names compared are "
-            "resolutions; views are typed; adding data and taking views restore the data flag.",
-            "guard-reachability, literal-domain and save/restore typestate rules"),
-    "C20": ("Fifth pass: a helper that does not distribute records its block exactly in the outermost region; allreduce "
-            "writes back into arrays of any rank.", "branch-wise recording rule, rank-agnostic write-back rule"),
+    'C01': ('Fifth pass: every secularize implementation converts from the operator form first; a cut-off part is not added in place to a full-length tensor; a tensor completed incrementally is calculated from freshly zeroed data.',
+            'sibling rule over secularize implementations, dominance of an allocation before updateStructure, structural rules ordered before index algebra'),
+    'C02': ("Fifth pass: the conjugated system operators of the operator-form routines are Hermitian conjugates in a complex element type; at() of the density-matrix evolutions indexes the nearest grid point; the scalar product of state vectors and the inverse of a Hamiltonian's eigenvector matrix conjugate. Seeding round 5: phase factors of the conversions from the rotating frame take their time from the points of the axis.",
+            'TA adjoint obligation, hand-out rules, idiom tables for conjugation; absolute-time rule on convert_from_RWA'),
+    'C03': ("Fifth pass: 'done already' switches and flag-guarded fills (diagonalized mark, coupling matrix) are cleared or kept in step by every method that rebuilds what they depend on. Seeding round 5: the builders' converting setters use the converted value wherever they touch their storage.",
+            'stored-result analysis: switch and helper forms; converting-setter consistency (proxy of C05-U15)'),
+    'C04': ('Fifth pass: managed properties are not shadowed in subclasses; at() of evolutions hands out owned data; in-place transform() methods promote their storage first; __exit__ contains a failing transform; public deep copies are registered; readers of the site-basis system-bath operators establish the basis (six open findings). Seeding round 5: a stored value computed from basis-managed data is reset by transform() (a guard on the basis id is not enough).',
+            'MRO scan, dominance of a promotion statement, contained-failure protocol rule, reader scan of sbi.KK; stored-result analysis with the transform-reset obligation'),
+    'C05': ('Fifth pass: nothing read through a units-managed property goes into its raw storage, no element is assigned through such a property, and no units-managed object is created under the current units from internal values. Seeding round 5: converting setters neither store nor compare the argument as supplied next to the converted value; values read under internal units are not assigned to managed properties outside the block.',
+            'RAW/INT taint into raw storage and into constructors (dominance-aware linear order); converting-setter consistency, INT-value-into-managed-setter rule'),
+    'C07': ("Fifth pass: where the operator form conjugates a system operator it takes the Hermitian conjugate. Also: the time-dependent tensor is read on its own grid - bound on the tensor's axis, rounded step ratio compared back, index advanced by the stride, in tensor and operator form.",
+            'idiom table for the adjoint; grid rules on the routines that read RelaxationTensor.data / Lm / Ld with a running index'),
+    'C08': ("Fifth pass: what the step-by-step mode keeps between calls is basis-managed; both modes record the rotating frame and accept the same optional generators; apply() handles 'all' and refuses lists that are no time axis.",
+            'managed/plain operand scan, sibling agreement of entry points, parameter-kind rules'),
+    'C09': ("Fifth pass: the three bath-function classes agree on their energy parameters and on the units of shared accessors; interpolation splines are dropped whenever the data change; the temperature refusal is demanded of spectral densities too (two open findings). Seeding round 5: every dictionary appended to the parameter record is the object's own.",
+            'sibling tables and accessors, stored-result analysis with hooks; fresh-dictionary rule on the constructors'),
+    'C10': ("Fifth pass: reset-then-accumulate addresses one element; methods called on the aggregate's molecules exist in Molecule; the dipole of an element is that of the levels the molecule changes between; sub-modes are selected by the molecule's position.",
+            'element-agreement rule, API-existence over self.monomers, provenance of the get_dipole levels, counter/enumerate rule'),
+    'C11': ('Fifth pass: exciton widths take the site coefficients of their own exciton. Also: all lines take their lifetime term alike, rows of the eigenvector matrix come from the state table, cross-correlation terms are summed over all ordered pairs; the mock absorption calculator reads its axis under internal units.',
+            'index-role rule of C12-I; sibling-condition rule, state-table rule, loop-coverage rule'),
+    'C12': ('Fifth pass: exciton widths weight site widths with SS[site, exciton].',
+            'index-role rule on accumulations over sites'),
+    'C14': ('Fifth pass: states of equal lowest energy share the population at T = 0 (two open findings); the bath is dereferenced only where present, the temperature asked for through has_temperature(); no value is returned on an unsound summary flag.',
+            'mask-form recogniser, guarded-dereference rule, summary-flag soundness'),
+    'C15': ('Fifth pass: option setters of the propagators are absolute (no stored value computed from the attribute it overwrites).',
+            'self-reference rule on set* methods'),
+    'C17': ('Fifth pass: a rate matrix owns a fresh floating-point array.',
+            'allocation/ownership rule on the constructor'),
+    'C18': ('Fifth pass: exported tables have an element type computed from axis and data, the rank of 1-D data is stored in Matlab files and restored, importers assign internal values to managed setters only under internal units.',
+            'allocation-type rule, stored-rank sibling rule, INT-value-into-managed-setter rule'),
+    'C19': ('Fifth pass: every store into the 2D storage is behind a reachable shape refusal; resolution names compared are resolutions; views are typed; adding data and taking views restore the data flag.',
+            'guard-reachability, literal-domain and save/restore typestate rules'),
+    'C20': ('Fifth pass: a helper that does not distribute records its block exactly in the outermost region; allreduce writes back into arrays of any rank. Seeding round 5: reductions act exactly where the helpers divide the work.',
+            'branch-wise recording rule, rank-agnostic write-back rule; sibling condition of reductions and helpers'),
 }
 
 
